@@ -234,6 +234,22 @@ def _ev_cksum(ctx, case, fu):
                 ctx.fail('checksum-reentrant-at-yield', case, inner['bad'])
         else:
             got, exc = _call(fu.compute_file_checksum, p, **kw)
+            if size > 0 and exc is None and cseed % 3 == 0:
+                # the same file (same inode) overwritten in place with other bytes of the same length and its modification
+                # time put back (rsync --inplace -t, cp -p, a restore): the digest is the digest of what is there now
+                st = os.stat(p)
+                data_b = content(size, cseed + 77)
+                if data_b == data:
+                    data_b = bytes([data[0] ^ 0xff]) + data[1:]
+                with open(p, 'r+b') as fh:
+                    fh.write(data_b)
+                os.utime(p, ns=(st.st_atime_ns, st.st_mtime_ns))
+                got_b, exc_b = _call(fu.compute_file_checksum, p, **kw)
+                ctx.clause('checksum-after-in-place-rewrite')
+                if exc_b is not None or got_b != hashlib.new(alg or 'sha256', data_b).hexdigest():
+                    ctx.fail('checksum-after-in-place-rewrite', case,
+                             {'got': got_b, 'exc': exc_b, 'is_digest_of_the_old_content': got_b == want, 'same_inode': os.stat(p).st_ino == st.st_ino})
+                data = data_b
         still = _read(p)
     finally:
         shutil.rmtree(d, ignore_errors=True)
